@@ -14,6 +14,7 @@ import (
 	"fmt"
 	"io"
 	"net/http"
+	"os"
 	"runtime"
 	"strconv"
 	"strings"
@@ -321,7 +322,7 @@ func transform0(honest []byte, in input) ([]byte, bool) {
 		if err != nil || tree.Kind != refcbor.Array || len(tree.Items) < 2 || tree.Items[len(tree.Items)-1].Kind != refcbor.Array {
 			return nil, false
 		}
-		count := []int{200, 1001, 1200, 2500, 6000}[in.Size%5]
+		count := []int{200, 1001, 1200, 2500, 6000, 400, 900}[in.Size%7]
 		a := in.Arg
 		if a < 0 {
 			a = -a
@@ -784,12 +785,21 @@ func evalClient(d caseDesc) ev.Result {
 	}}}
 	tag := fmt.Sprintf("client pos=%d cfg=%s/%s/%s input=%s(%d,%d)", d.Pos, cfg.Key, cfg.Kex, cfg.Cipher, d.In.Kind, d.In.Node, d.In.Arg)
 	hit := false
+	nth69 := 0
 	var delivered int
 	hook := func(svc *deploy.Service) *deploy.Link {
 		l := deploy.NewLink(svc)
 		l.OnResponse = func(ex *deploy.Exchange) *deploy.Action {
 			if int(ex.RespType) != d.Pos || hit || ex.RespStatus != 200 {
 				return nil
+			}
+			if d.In.Kind == "manykv" && d.Pos == 69 {
+				// service-info floods are delivered at the Node-th OwnerServiceInfo of the run (0..2),
+				// so also after devmod and the module's activation
+				nth69++
+				if nth69-1 != d.In.Node%3 {
+					return nil
+				}
 			}
 			hit = true
 			if d.In.Kind == "http" {
@@ -907,6 +917,9 @@ func evalClient(d caseDesc) ev.Result {
 	cls := "error"
 	if runErr == nil {
 		cls = "accepted"
+	}
+	if os.Getenv("VERIF_DEBUG") != "" {
+		fmt.Fprintf(os.Stderr, "DEBUG %s: delivered=%d runErr=%v\n", tag, delivered, runErr)
 	}
 	if polling {
 		cls = "polling-until-cancelled"
@@ -1184,7 +1197,7 @@ func genInput(t *rapid.T, pos int) input {
 	case "binleaf":
 		in.Resign = true
 	case "manykv":
-		in.Size = rapid.IntRange(0, 4).Draw(t, "count")
+		in.Size = rapid.IntRange(0, 6).Draw(t, "count")
 	case "remac":
 		in.Node = rapid.IntRange(0, remacShapes+40).Draw(t, "remacnode")
 	}
@@ -1252,12 +1265,17 @@ func TestC10(t *testing.T) {
 				targets = append(targets, caseDesc{Side: "client", Pos: 61, Cfg: c, In: input{Kind: "binleaf", Node: n, Arg: a, Resign: true}})
 			}
 		}
-		for sz := 0; sz < 5; sz++ {
+		for sz := 0; sz < 7; sz++ {
 			for a := int64(0); a < 16; a++ {
 				if a < 8 {
 					targets = append(targets, caseDesc{Side: "server", Pos: 68, Cfg: c, In: input{Kind: "manykv", Size: sz, Arg: a}})
 				}
-				targets = append(targets, caseDesc{Side: "client", Pos: 69, Cfg: c, In: input{Kind: "manykv", Size: sz, Arg: a}})
+				for nth := 0; nth < 3; nth++ {
+					if nth > 0 && a < 8 && a%4 == 0 {
+						continue
+					}
+					targets = append(targets, caseDesc{Side: "client", Pos: 69, Cfg: c, In: input{Kind: "manykv", Node: nth, Size: sz, Arg: a}})
+				}
 			}
 		}
 		if strings.HasPrefix(cfgs[c].Cipher, "COSE") { // encrypt-then-MAC suites: hostile inner Encrypt0 under a correct MAC
